@@ -357,4 +357,12 @@ def main(run, pid, level):
     except Inconclusive as e:
         out("INCONCLUSIVE property=%s: %s" % (pid, e))
         sys.exit(2)
+    except (subprocess.TimeoutExpired, MemoryError) as e:
+        out("INCONCLUSIVE property=%s: %s" % (pid, str(e)[:300]))
+        sys.exit(2)
+    except Exception:                                   # a defect of the machinery is never a verdict
+        import traceback
+        traceback.print_exc()
+        out("INCONCLUSIVE property=%s: internal error of the check (see traceback)" % pid)
+        sys.exit(2)
     sys.exit(rc)
